@@ -565,7 +565,11 @@ class Scheduler:
                 return {"op": "rotate", "a": a, "angle": J(ang), "degrees": ang not in (1e-10, -1e-12) or None}
             if r.random() < 0.5:
                 ang = r.choice([30, 45, 90, 180, 270, -60, 17, 360]) if r.random() < 0.5 else r.uniform(-360, 360)
-                return {"op": "rotate", "a": a, "angle": J(ang), "degrees": True, "dkw": r.random() < 0.5}
+                st = {"op": "rotate", "a": a, "angle": J(ang), "degrees": True, "dkw": r.random() < 0.5}
+                if r.random() < 0.2:
+                    st["aform"] = r.choice(["ndarray", "npfloat"])
+                    st["angle"] = J(float(ang))
+                return st
             ang = r.uniform(-math.tau, math.tau) if r.random() < 0.8 else r.choice([1, 2, 3, -1])
             deg = r.choice([None, False])
             return {"op": "rotate", "a": a, "angle": J(ang), "degrees": deg}
